@@ -6,14 +6,18 @@
 (***************************************************************************)
 EXTENDS Keyspace
 
-CONSTANTS N, R, BugGapsIgnoreTarget
+CONSTANTS N, R, BugGapsIgnoreTarget,
+          Part   \* "all": every (trie, target, peer set); "trie": every (trie, target) without peers;
+                 \* "peers": every peer set with the empty trie (the theorems about tries do not mention the
+                 \* peers and vice versa, so the two parts together decide the same as "all")
 VARIABLES T, target, P
 vars == <<T, target, P>>
 
 PrefixFree(S) == \A a, b \in S : a # b => ~Overlap(a, b)
-Init == /\ T \in {S \in SUBSET UpTo(N) : PrefixFree(S)}
-        /\ target \in UpTo(N)
-        /\ P \in SUBSET SeqOfLen(N)
+PrefixFreeSets == {S \in SUBSET UpTo(N) : PrefixFree(S)}   \* (constant: TLC evaluates it once)
+Init == /\ T \in (IF Part = "peers" THEN {{}} ELSE PrefixFreeSets)
+        /\ target \in (IF Part = "peers" THEN {<<>>} ELSE UpTo(N))
+        /\ P \in (IF Part = "trie" THEN {{}} ELSE SUBSET SeqOfLen(N))
 Next == UNCHANGED vars
 Spec == Init /\ [][Next]_vars
 
@@ -35,6 +39,6 @@ SubtractIsDifference == \A S \in {Subtract(T, {target})} : \A q \in SeqOfLen(N) 
 CoveredIffNoGaps == KeyspaceCovered(T) <=> (T # {} /\ Gaps(T, <<>>) = {})
 \* a minimal region plan exists for every peer set and satisfies the partition conditions
 RegionPlanExists ==
-  \E RP \in {S \in SUBSET UpTo(N) : PrefixFree(S)} : P # {} => ValidRegions(RP, P, <<>>, R)
+  P # {} => \E RP \in PrefixFreeSets : ValidRegions(RP, P, <<>>, R)
 AllocBounds == \A x \in SeqOfLen(N) : Cardinality(KNearest(P, x, R)) = (IF Cardinality(P) < R THEN Cardinality(P) ELSE R)
 =============================================================================
